@@ -505,6 +505,7 @@ func c08RtmpReadSweeps(c *h.Ctx, ms []rmsg, wire []byte, cum []int, ks []int, la
 			rd := &h.SegReader{Data: wire[:k], R: r.Fork(), Mode: mode, End: f.err}
 			p := rtmp.NewProtocol(&h.RW{Reader: rd, Writer: io.Discard})
 			got, err, status := c08ReadAll(p, len(ms)+2)
+			c08Runs["rtmp read offsets ("+f.name+")"]++
 			in := fmt.Sprintf("rtmp %s at read offset %d of %d (seg mode %d): write 128 %s", f.name, k, len(wire), mode, h.Trunc(sess, 600))
 			mi := "missing"
 			if i < len(model) {
@@ -593,6 +594,7 @@ func c08RtmpWriteSweeps(c *h.Ctx, ms []rmsg, wire []byte, cum []int, calls []int
 		modelCalls := strings.Split(c.O.Call(op, strconv.Itoa(f.t), "4096", "128", sess, c08Ks(callK)), ",")
 		one := func(in string, w io.Writer, delivered func() []byte, k int, mi string) {
 			nOK, err, status, p := c08WriteSession(w, ms, viaPacket)
+			c08Runs["rtmp write budgets/call indices ("+f.name+")"]++
 			d := delivered()
 			j := c08Whole(cum, k)
 			impl := fmt.Sprintf("%d writes returned nil, %s, err=%v, %d bytes delivered", nOK, status, err, len(d))
@@ -661,9 +663,9 @@ func c08RtmpWriteSweeps(c *h.Ctx, ms []rmsg, wire []byte, cum []int, calls []int
 
 func c08Rtmp(c *h.Ctx) {
 	r := c.R
-	nsess := c.N(14, 250)
+	nsess := c.N(40, 400)
 	for s := 0; s < nsess; s++ {
-		ms := c08Session(r, c.N(500, 2500))
+		ms := c08Session(r, c.N(700, 2500))
 		wire, cum, calls, st := c08WriteClean(ms)
 		in := "rtmp.write 128 " + rmsgsStr(ms)
 		if !c.Hold(st == "ok", "rtmp.write.ok", h.Trunc(in, 600), st, "ok") {
@@ -759,6 +761,7 @@ func c08Handshake(c *h.Ctx) {
 				done++
 				return "done"
 			})
+			c08Runs["handshake read offsets ("+f.name+")"]++
 			in := fmt.Sprintf("handshake %s at read offset %d", f.name, k)
 			wantDone := 0
 			for _, b := range []int{1, 1537, 3073} {
@@ -927,7 +930,7 @@ func c08FlvDemux(rd io.Reader) (hdr string, got []string, err error, status stri
 
 func c08Flv(c *h.Ctx) {
 	r := c.R
-	nfiles := c.N(12, 300)
+	nfiles := c.N(30, 400)
 	for s := 0; s < nfiles; s++ {
 		hv, ha := r.Bool(), r.Bool()
 		var tags []c08Tag
@@ -960,6 +963,7 @@ func c08Flv(c *h.Ctx) {
 				mode := r.Intn(4)
 				rd := &h.SegReader{Data: file[:k], R: r.Fork(), Mode: mode, End: f.err}
 				hdr, got, err, status := c08FlvDemux(rd)
+				c08Runs["flv read offsets ("+f.name+")"]++
 				in := fmt.Sprintf("flv %s at read offset %d of %d (seg mode %d): mux %s %s %s", f.name, k, len(file), mode, b01(hv), b01(ha), ts)
 				j := c08Whole(cum, k)
 				if k < 13 {
@@ -986,6 +990,7 @@ func c08Flv(c *h.Ctx) {
 			modelW := strings.Split(c.O.Call("c08.flv.wfaults", strconv.Itoa(f.t), b01(hv), b01(ha), ts, "all"), ",")
 			run := func(in string, w io.Writer, delivered func() []byte, k int) {
 				hdrOK, nOK, err, status := c08FlvMux(w, hv, ha, tags)
+				c08Runs["flv write budgets/call indices ("+f.name+")"]++
 				d := delivered()
 				j := c08Whole(cum, k)
 				impl := fmt.Sprintf("header ok=%v, %d tags acknowledged, %s, err=%v, %d bytes", hdrOK, nOK, status, err, len(d))
@@ -1027,9 +1032,19 @@ func c08Flv(c *h.Ctx) {
 	}
 }
 
+var c08Runs = map[string]int{}
+
 func c08(c *h.Ctx) {
 	c08Towers(c)
 	c08Rtmp(c)
 	c08Handshake(c)
 	c08Flv(c)
+	keys := make([]string, 0, len(c08Runs))
+	for k := range c08Runs {
+		keys = append(keys, k)
+	}
+	sort.Strings(keys)
+	for _, k := range keys {
+		c.Note(fmt.Sprintf("fault-injection runs on the real code, %s: %d", k, c08Runs[k]))
+	}
 }
